@@ -8,6 +8,7 @@ import engine_flw as flw
 import engine_flw2 as flw2
 import engine_pan as pan
 import engine_bit as bit
+import engine_pol as pol
 
 PROPS = {
     "C02": {
@@ -26,8 +27,8 @@ PROPS = {
     },
     "C08": {
         "controls": ["FLW-guard", "BIT"],
-        "rules": [("FLW-5", flw2.flw5), ("FLW-6", flw2.flw6), ("FLW-7", flw2.flw7), ("TAB-2", tab.tab2), ("TAB-3", tab.tab3), ("BIT-2", bit.bit2)],
-        "explanation": "Decides the invariant-maintenance clauses of C08: a representation invariant holds after every rule iff every writer re-establishes it. "
+        "rules": [("FLW-5", flw2.flw5), ("FLW-6", flw2.flw6), ("FLW-7", flw2.flw7), ("TAB-2", tab.tab2), ("TAB-3", tab.tab3), ("BIT-2", bit.bit2), ("FLW-9", flw2.flw9)],
+        "explanation": "FLW-9 ('at least one syllable'): every DeletionOnlySeg / DeletionOnlySyll refusal counts segments / syllables of the very word local that the removal following it edits (a guard on the pre-image lets a multi-segment deletion remove the last segment). Decides the invariant-maintenance clauses of C08: a representation invariant holds after every rule iff every writer re-establishes it. "
                        "FLW-5a: MIR typestate (Empty/NonEmpty/Maybe, branch-refined on is_empty) of every by-value syllable that is pushed, inserted or stored "
                        "into a word; FLW-5b: every removal of a segment from a syllable inside a word is followed on all normal paths by an emptiness check that "
                        "removes or overwrites the syllable, or keeps a copy (run-length guard), or is the first half of a split guarded by !at_syll_start; "
@@ -35,7 +36,7 @@ PROPS = {
                        "return before dedup and its len > 4 meld test, every write of Syllable.tone copies a tone / capped literal / concat_tone result; FLW-7: raw "
                        "`*place =` writes assign None only, node bytes and the packed place word are written only by set_node and the four setters (each ending "
                        "in the Some(0)->None normalisation, TAB-3), cardinals.json places are normalised; TAB-2/3: masks stay inside their fields; BIT-2: by bit-level abstract interpretation of the four setters' MIR over all canonical places (16 presence shapes, symbolic payloads), the word after set_X is exactly the canonical word of the resulting shape (absent sub-node => payload bits 0, no presence bit => None) and every one of the 16 bits is owned by exactly one sub-node.",
-        "does_not_decide": "'at least one syllable' beyond the presence of the explicit `len() <= 1` refusals; the arithmetic inside concat_tone's meld step.",
+        "does_not_decide": "'at least one syllable' beyond the presence and freshness of the explicit `len() <= 1` refusals; the arithmetic inside concat_tone's meld step.",
         "assumptions": ["words entering a rule satisfy the invariant (syllables cloned out of a word are NonEmpty)",
                         "gen_syll_from_struct may return an empty syllable (unknown variable / empty structure), hence Maybe"],
     },
@@ -166,8 +167,8 @@ PROPS = {
     },
     "C04": {
         "controls": ["BIT"],
-        "rules": [("TAB-1", tab.tab1), ("TAB-2", tab.tab2), ("TAB-3", tab.tab3), ("BIT-3", bit.bit3), ("FLW-8", flw2.flw8)],
-        "explanation": "FLW-8 decides the scoping clause of alpha binding ('in the same application'): on MIR, every call of input_match_at in SubRule::apply is dominated inside the scan loop by HashMap::clear of both `alphas` and `variables` (directly or through a SubRule method that clears on every path), and every restart of a partial input match in input_match_at (`state_index = 0` inside the loop) is paired in the same iteration with clears of both tables. BIT-3 decides the single-feature equations of C04 for all segments at once by bit-level abstract interpretation of Segment::{get_node,set_node,set_feat,feat_match}: on a symbolic segment (3 symbolic bytes, place = one of 17 presence shapes with symbolic payloads), for every node, single-bit mask and polarity: feat_match is the named bit (its negation for -) and false on an absent sub-node; set_feat(+) yields old|bit (creating an absent sub-node with its other bits 0), set_feat(-) yields old&!bit and is the identity on an absent sub-node; every other node reads exactly as before; the feature then matches with the polarity set. Tables: the hand-maintained index tables (FType/NodeType/NodeKind "
+        "rules": [("TAB-1", tab.tab1), ("TAB-2", tab.tab2), ("TAB-3", tab.tab3), ("BIT-3", bit.bit3), ("FLW-8", flw2.flw8), ("POL-1", pol.pol1)],
+        "explanation": "POL-1 decides the sign clauses ('named value', 'or its inverse with -α') as sibling agreement: in each of the 39 matches on BinMod / AlphaMod of the library, arms with the same skeleton differ in polarity (never the same code for both signs), and the sites whose meaning the accessors fix -- third argument of Segment::set_feat / feat_match, `Alpha::Feature(f != 0)` -- receive the positive polarity in the Positive / Alpha arm and the negative one in the Negative / InvAlpha arm. FLW-8 decides the scoping clause of alpha binding ('in the same application'): on MIR, every call of input_match_at in SubRule::apply is dominated inside the scan loop by HashMap::clear of both `alphas` and `variables` (directly or through a SubRule method that clears on every path), and every restart of a partial input match in input_match_at (`state_index = 0` inside the loop) is paired in the same iteration with clears of both tables. BIT-3 decides the single-feature equations of C04 for all segments at once by bit-level abstract interpretation of Segment::{get_node,set_node,set_feat,feat_match}: on a symbolic segment (3 symbolic bytes, place = one of 17 presence shapes with symbolic payloads), for every node, single-bit mask and polarity: feat_match is the named bit (its negation for -) and false on an absent sub-node; set_feat(+) yields old|bit (creating an absent sub-node with its other bits 0), set_feat(-) yields old&!bit and is the identity on an absent sub-node; every other node reads exactly as before; the feature then matches with the polarity set. Tables: the hand-maintained index tables (FType/NodeType/NodeKind "
                        "from_usize & count, DiaFeatType = NodeType++FType, hm_to_mod split constant, modifier array lengths, "
                        "diacritics.json keys) agree, the 16-bit place packing is laid out consistently and used consistently by its accessors (TAB-3, see C18), and FType::to_node_mask maps every feature to exactly one bit, bits of a node "
                        "disjoint and contiguous and equal to the Place masks, enum order node-contiguous. A necessary condition: a "
